@@ -212,7 +212,7 @@ def shrink(desc, scratch=None, budget=250):
 # ---------------------------------------------------------------------------
 TIERS = {
     'quick': {'runs': 12000, 'deadline': 100.0, 'min_runs': 800, 'block': 20},
-    'thorough': {'runs': 300000, 'deadline': 2700.0, 'min_runs': 20000, 'block': 50},
+    'thorough': {'runs': 120000, 'deadline': 2700.0, 'min_runs': 20000, 'block': 50},
 }
 
 RULE = ("One run = a seeded initial table set (1-3 tables, 0-4 rows, 1-6 columns of short/int/long/float/"
